@@ -1,6 +1,6 @@
 // C09 - Geometry construction preserves the meaning of the user's solids.
 //
-// Enumerated space (E4 over object trees, problems/solid_programs.hh), 50 leaf solids:
+// Enumerated space (E4 over object trees, problems/solid_programs.hh).  BASE ZOO, 50 leaf solids:
 //   u: leaf x 10 transforms x {plain, negated} x 5 placements (global implicit / explicit /
 //      sphere + background; daughter unit with explicit or implicit boundary under each of 7
 //      transforms)
@@ -11,6 +11,28 @@
 //      translation / rotation (nested transforms; every surface type must be merged)
 //   p: the partition {A&B, A-B, B-A} of every pair as three materials of one unit
 //   t: (thorough) depth-3 trees (A op1 B) op2 C over a 12-leaf subset
+// EXTENSION (sprog::enumerate_extension; C09 only):
+//   + 5 GenPrism leaves whose end faces are triangles written with four points (two consecutive
+//     vertices coincide: v0==v1 below / v1==v2 above / v0==v1 on both / controls v2==v3, v3==v0),
+//     in kind u (everything above) and in kind b with box1 / sph1 / cyl1 (both operand orders)
+//   + kind c under the MIRROR PAIR of tilts (+-1/12 turn about x about the same centre): two
+//     general quadrics that differ only in their cross terms
+//   + SECOND CONSTRUCTION TOLERANCE  Tolerance::from_relative(1e-6, 100)  (rel 1e-6, abs 1e-4:
+//     abs != rel, length scale != 1): u (all 55 leaves x 10 transforms x polarity x {implicit,
+//     explicit}), c (4 transform pairs), n (quick: under id/tr/gen)
+//   + kind f: two copies of a leaf at |t| ~ 50 (translation, and the generic rotation +
+//     translation), displaced from one another by 4e-3 resp. 8e-3 (40 / 80 x the second
+//     tolerance's abs, far beyond rel x |t| = 5e-5) x 3 operations, under both tolerances; besides
+//     the lattices, DIRECTED probes: along lines parallel to the displacement every boundary
+//     crossing of the first copy is located with the oracle (bisection) and probed at +-1/2 and
+//     +-3/2 displacement, i.e. inside the thin regions that belong to exactly one copy
+//   + placements selfW / selfD: units that consist of a boundary and a background ONLY (global
+//     unit whose boundary is the solid itself; daughter {boundary = solid, background} under 7
+//     transforms in an implicit world) - the shape the Geant4 converter gives every leaf volume
+//   + kind h: 4 universes, depth 3: world(explicit box){D1 under P1, D1 again under P2, D2 under
+//     P3}, D1 = {A, rest}, D2 (implicit sphere + background) = {D3 under P4}, D3 = {B, rest}; both
+//     orders of the world's daughter list (deep daughter last / first); one lattice per placed
+//     leaf unit besides the world lattice
 // Every program goes through the real pipeline
 //     UnitProto -> InputBuilder (surface transformation, simplification, soft de-duplication,
 //     bounding zones, exterior replacement, postfix logic) -> OrangeParams (UnitInserter, BIH)
@@ -22,15 +44,27 @@
 // view reports volume V  iff  the point satisfies V's analytic definition, is not claimed by a
 // placed daughter (inside a daughter: the daughter's own volume at the transformed point), and
 // "outside" iff it is outside the global boundary.  Points closer than
-//     10 * tol.rel * max(1, L)      (L = largest world coordinate; tol = Tolerance::from_default,
-//                                    rel = abs = 1.5e-8)
+//     10 * max(tol.abs, tol.rel * L)   (L = largest world coordinate; default tolerance: abs = rel
+//                                       = 1.5e-8, i.e. 10 * tol.rel * max(1, L); second
+//                                       tolerance: 1e-3 for L <= 100)
 // to ANY constituent surface (also extensions of faces and surfaces internal to a union) are
 // skipped: construction may move surfaces by the tolerance (snapping, merging of near-coincident
 // surfaces) and the tracker refuses to initialise on a surface.  The factor 10 covers the
 // relative-tolerance comparisons (tol.rel x coordinate magnitude <= tol.rel x L) with margin; it
 // is a property-given bound ("farther than the construction tolerance from every surface"), not
 // a tuned one.
+//
+// Not a verdict: a global unit whose boundary is the solid (selfW) is refused by UnitProto with
+// "global boundary must be finite" when it cannot determine the boundary's extents (documented
+// validation): counted as programs_refused_global_boundary_extents.
+//
+// Signatures: leaf-membership:<kind> (the leaf is already wrong when built alone),
+// membership:<kinds> (flipping that leaf explains the label), init-failed:<kinds>,
+// wrong-volume:<kinds>, construct-throws:<message>; two recorded defects have their own,
+// narrowly conditioned ones: genprism-leaddup:end-plane-missing / :valid-prism-rejected and
+// softeq-distance:far-copies-merged (see the code next to them for the exact conditions).
 #include <algorithm>
+#include <csignal>
 #include <cmath>
 #include <cstdint>
 #include <exception>
@@ -131,11 +165,30 @@ std::string first_words(std::string const& what)
 int main(int argc, char** argv)
 {
     vf::Run R(argc, argv, "C09", "c09_solids");
+    {
+        // A stack overflow inside the library (e.g. unbounded recursion of a surface simplifier
+        // on a NaN surface) must be attributed to the running case like any other crash: run
+        // the engine's fatal-signal handler for SIGSEGV / SIGBUS on an alternate stack.
+        static std::vector<char> alt(1 << 16);
+        stack_t ss{};
+        ss.ss_sp = alt.data();
+        ss.ss_size = alt.size();
+        if (sigaltstack(&ss, nullptr) == 0)
+        {
+            struct sigaction sa{};
+            sa.sa_handler = vf::detail::on_fatal;
+            sa.sa_flags = SA_ONSTACK;
+            sigemptyset(&sa.sa_mask);
+            sigaction(SIGSEGV, &sa, nullptr);
+            sigaction(SIGBUS, &sa, nullptr);
+        }
+    }
     bool const thorough = R.thorough();
     int const nlat = 9;
 
-    auto const keys = sp::enumerate(thorough);
-    Tolerance<> const tol = Tolerance<>::from_default();
+    auto const keys = sp::enumerate(thorough, /* extended = */ true);
+    if (int(sp::leaves().size()) < sp::num_base_leaves || sp::find_leaf("gptlo") != sp::num_base_leaves)
+        R.harness_error("leaf zoo: the base leaves are not the first num_base_leaves entries");
     // irrational fractions of the lattice spacing
     double const shift[3] = {std::sqrt(2.0) - 1.0, (std::sqrt(3.0) - 1.0) / 2, (std::sqrt(5.0) - 1.0) / 2};
     Real3 const dir = make_unit_vector(Real3{0.36, 0.48, 0.8});
@@ -157,7 +210,7 @@ int main(int argc, char** argv)
         sp::Key k;
         k.kind = 'u';
         k.a = leaf;
-        k.xa = xf >= sp::num_unary_transforms ? 0 : xf;
+        k.xa = xf == sp::xf_tiny ? 0 : xf;
         try
         {
             s->prog = sp::build(k);
@@ -227,7 +280,28 @@ int main(int argc, char** argv)
             for (auto const& t : prog.tags)
                 if (t.rfind("leaf:", 0) == 0)
                     kinds += (kinds.empty() ? "" : "+") + t.substr(5);
-            R.violation("construct-throws:" + first_words(e.what()), cid,
+            // A global unit whose boundary IS the solid (pl_self_world): UnitProto documents that
+            // it must be able to determine finite extents of the global boundary and refuses
+            // otherwise ("global boundary must be finite"; happens for boundaries whose bounding
+            // zone is negated, e.g. a solid with more than half a turn removed).  A refusal is not
+            // a wrong point assignment: counted and tagged, no verdict.
+            if (keys[ki].place == sp::pl_self_world
+                && std::string(e.what()).find("global boundary must be finite") != std::string::npos)
+            {
+                R.count("programs_refused_global_boundary_extents");
+                R.tag("refused:global-boundary-extents");
+                R.end_case();
+                continue;
+            }
+            // one recorded defect gets its own signature: a GenPrism whose two end faces BOTH
+            // have a duplicate among their leading three vertices is rejected as "both degenerate"
+            bool const leaddup_both
+                = std::string(e.what()).find("polygons are both degenerate") != std::string::npos
+                  && (sp::leaves()[keys[ki].a].name == "gptboth"
+                      || (keys[ki].b >= 0 && sp::leaves()[keys[ki].b].name == "gptboth"));
+            R.violation(leaddup_both ? std::string("genprism-leaddup:valid-prism-rejected")
+                                     : "construct-throws:" + first_words(e.what()),
+                        cid,
                         fmt("construction of a valid program (%s) threw: %s", kinds.c_str(), e.what()));
             R.tag("construct-throws");
             R.end_case();
@@ -253,7 +327,10 @@ int main(int argc, char** argv)
         CollectionStateStore<OrangeStateData, MemSpace::host> state(params->host_ref(), 1);
         OrangeTrackView geo(params->host_ref(), state.ref(), TrackSlotId{0});
 
-        ld const threshold = 10 * ld(tol.rel) * std::max<ld>(1, prog.scale);
+        // 10 x the larger of the absolute tolerance and the relative tolerance at the world's
+        // length scale (default tolerance: abs = rel, i.e. 10 * tol.rel * max(1, L))
+        Tolerance<> const ptol = sp::tolerance_of(prog.tol);
+        ld const threshold = 10 * std::max<ld>(ld(ptol.abs), ld(ptol.rel) * prog.scale);
         if (R.verbose())
         {
             fprintf(stderr, "program %s\n  scale %.3g threshold %.3Lg  surfaces %zu volumes %zu\n",
@@ -272,22 +349,8 @@ int main(int argc, char** argv)
         std::map<std::string, uint64_t> seen_expected;
         uint64_t mismatches = 0, compared = 0, ambiguous = 0;
         uint64_t outcome = vf::hash_str(cid);
-        // pass 0: lattice over the world box x 1.08 (exterior, background, boundary regions);
-        // pass 1: lattice over the box around the materials, shifted by irrational fractions of
-        // its spacing (dense inside the solids, never aligned with "round" surface positions)
-        for (int pass = 0; pass < 2; ++pass)
-            for (int ix = 0; ix < nlat; ++ix)
-                for (int iy = 0; iy < nlat; ++iy)
-                    for (int iz = 0; iz < nlat; ++iz)
-                    {
-                        so::Box3 const& box = pass == 0 ? prog.probe : prog.content;
-                        int const idx[3] = {ix, iy, iz};
-                        Real3 pos;
-                        for (int k = 0; k < 3; ++k)
-                        {
-                            double step = double(box.hi[k] - box.lo[k]) / (nlat - 1 + pass);
-                            pos[k] = double(box.lo[k]) + step * (idx[k] + pass * shift[k]);
-                        }
+        // the comparison of ONE probe point
+        auto probe_point = [&](Real3 const& pos) {
                         so::V3 const p{ld(pos[0]), ld(pos[1]), ld(pos[2])};
                         sp::Expect ex = prog.locate(p, threshold);
                         if (ex.kind == sp::Expect::overlap || ex.kind == sp::Expect::hole)
@@ -299,7 +362,7 @@ int main(int argc, char** argv)
                         if (ex.kind == sp::Expect::ambiguous)
                         {
                             ++ambiguous;
-                            continue;
+                            return;
                         }
                         // ---- real code ----
                         geo = GeoTrackInitializer{pos, dir};
@@ -317,7 +380,7 @@ int main(int argc, char** argv)
                         ++seen_expected[ex.label];
                         outcome = vf::hash_mix(outcome, vf::hash_str(observed));
                         if (observed == ex.label)
-                            continue;
+                            return;
 
                         // ---- disagreement: attribute to a leaf if flipping it explains it ----
                         ++mismatches;
@@ -340,6 +403,23 @@ int main(int argc, char** argv)
                                 && alt.label == observed)
                                 flipped.push_back(part.kind);
                         }
+                        // one recorded defect gets its own signature: the point lies beyond the
+                        // end plane that GenPrism drops when that end face has a duplicate among
+                        // its leading three vertices (gptlo: z < -hz, gpthi: z > +hz in the
+                        // leaf's own frame).  Any other failure of these leaves (|z| < hz, or a
+                        // different leaf) keeps the generic signatures below.
+                        bool leaddup = false;
+                        for (auto const& part : prog.parts)
+                        {
+                            int end = sp::leaddup_end(sp::leaves()[part.leaf].name);
+                            if (!end)
+                                continue;
+                            auto const& xf = sp::transforms()[part.xf];
+                            so::V3 q = so::to_daughter(prog.tree_r, prog.tree_t, p);
+                            q = so::to_daughter(xf.m3(), xf.v3(), q);
+                            if (end * q.z > ld(sp::gpt_hz))
+                                leaddup = true;
+                        }
                         // one signature per implicated leaf kind (stable identity of WHAT fails)
                         std::vector<std::string> sigs;
                         auto uniq = [](std::vector<std::string> v) {
@@ -347,7 +427,26 @@ int main(int argc, char** argv)
                             v.erase(std::unique(v.begin(), v.end()), v.end());
                             return v;
                         };
-                        if (!alone.empty())
+                        // recorded defect with its own signature: under the second tolerance
+                        // (abs = 100 rel) two copies of a curved leaf at |t| ~ 50 that are 4e-3
+                        // = 40 abs apart are merged (SoftSurfaceEqual::soft_eq_distance scales
+                        // the ABSOLUTE tolerance with the magnitude).  Only this window is
+                        // recorded: the same programs at 8e-3, under the default tolerance, with
+                        // planar leaves, or with a leaf that is wrong on its own keep the generic
+                        // signatures.
+                        bool far_merged = false;
+                        if (keys[ki].kind == 'f' && keys[ki].tol == 1 && alone.empty()
+                            && (keys[ki].xb == sp::xf_far4 || keys[ki].xb == sp::xf_farg4))
+                            for (auto const& t : st.surface_types)
+                                if (t != "px" && t != "py" && t != "pz" && t != "p")
+                                    far_merged = true;
+                        if (all_kinds.empty())
+                            all_kinds.push_back("hierarchy");
+                        if (leaddup)
+                            sigs.push_back("genprism-leaddup:end-plane-missing");
+                        else if (far_merged)
+                            sigs.push_back("softeq-distance:far-copies-merged");
+                        else if (!alone.empty())
                             for (auto const& k : uniq(alone))
                                 sigs.push_back("leaf-membership:" + k);
                         else if (observed == "<init-failed>")
@@ -367,7 +466,91 @@ int main(int argc, char** argv)
                                             prog.units.back().materials.empty()
                                                 ? "-"
                                                 : prog.units.back().materials[0].region->str().c_str()));
+        };
+        // pass 0: lattice over the world box x 1.08 (exterior, background, boundary regions);
+        // pass 1 (and one more per Program::more_content box): lattice over the box around the
+        // materials, shifted by irrational fractions of its spacing (dense inside the solids,
+        // never aligned with "round" surface positions)
+        int const npass = 2 + int(prog.more_content.size());
+        for (int pass = 0; pass < npass; ++pass)
+            for (int ix = 0; ix < nlat; ++ix)
+                for (int iy = 0; iy < nlat; ++iy)
+                    for (int iz = 0; iz < nlat; ++iz)
+                    {
+                        so::Box3 const& box = pass == 0   ? prog.probe
+                                              : pass == 1 ? prog.content
+                                                          : prog.more_content[pass - 2];
+                        int const sh = pass ? 1 : 0;
+                        int const idx[3] = {ix, iy, iz};
+                        Real3 pos;
+                        for (int k = 0; k < 3; ++k)
+                        {
+                            double step = double(box.hi[k] - box.lo[k]) / (nlat - 1 + sh);
+                            pos[k] = double(box.lo[k]) + step * (idx[k] + sh * shift[k]);
+                        }
+                        probe_point(pos);
                     }
+        // directed pass (Program::directed_len > 0: two copies of a solid displaced by that
+        // length along directed_dir): from each point of a 5^3 lattice over the content box
+        // march along +dir in steps of 0.04 over 2.4 length units, locate every change of the
+        // membership in the FIRST copy by bisection (oracle only) and probe at +-1/2 and +-3/2
+        // of the displacement around it (the second copy's boundary is one displacement further
+        // along +dir): the thin regions that belong to exactly one of the copies.
+        if (prog.directed_len > 0)
+        {
+            int const nd = 5;
+            double const len = prog.directed_len;
+            so::V3 const u{ld(prog.directed_dir[0]), ld(prog.directed_dir[1]), ld(prog.directed_dir[2])};
+            // membership in the FIRST copy (leaf-local frame of part 0), by the oracle alone
+            auto const& part0 = prog.parts.at(0);
+            auto const& xf0 = sp::transforms()[part0.xf];
+            auto label_at = [&](so::V3 const& q) {
+                so::V3 l = so::to_daughter(prog.tree_r, prog.tree_t, q);
+                l = so::to_daughter(xf0.m3(), xf0.v3(), l);
+                return part0.node->eval(l).in;
+            };
+            uint64_t directed = 0;
+            for (int ix = 0; ix < nd; ++ix)
+                for (int iy = 0; iy < nd; ++iy)
+                    for (int iz = 0; iz < nd; ++iz)
+                    {
+                        int const idx[3] = {ix, iy, iz};
+                        ld q0[3];
+                        for (int k = 0; k < 3; ++k)
+                        {
+                            ld step = (prog.content.hi[k] - prog.content.lo[k]) / nd;
+                            q0[k] = prog.content.lo[k] + step * (idx[k] + ld(shift[k]));
+                        }
+                        auto at = [&](ld s) {
+                            return so::V3{q0[0] + s * u.x, q0[1] + s * u.y, q0[2] + s * u.z};
+                        };
+                        ld const ds = 0.04L;
+                        bool prev = label_at(at(0));
+                        for (int m = 1; m <= 60; ++m)
+                        {
+                            bool cur = label_at(at(m * ds));
+                            if (cur == prev)
+                                continue;
+                            // bisect the first change in ((m-1) ds, m ds]
+                            ld lo = (m - 1) * ds, hi = m * ds;
+                            for (int it = 0; it < 30; ++it)
+                            {
+                                ld mid = (lo + hi) / 2;
+                                (label_at(at(mid)) == prev ? lo : hi) = mid;
+                            }
+                            for (int off : {-3, -1, 1, 3})
+                            {
+                                so::V3 q = at(hi + ld(off) * ld(len) / 2);
+                                probe_point(Real3{double(q.x), double(q.y), double(q.z)});
+                                ++directed;
+                            }
+                            prev = cur;
+                        }
+                    }
+            R.count("directed_probes", directed);
+            if (directed)
+                R.tag("probe:directed");
+        }
         R.count("evaluations", compared);
         R.count("ambiguous_skipped", ambiguous);
         R.count("mismatches", mismatches);
@@ -400,9 +583,10 @@ int main(int argc, char** argv)
                          seen_expected.size(), (unsigned long long)mismatches));
         R.end_case();
     }
-    R.note("space", fmt("%zu programs in tier %s (%zu leaves, %d unary / %d binary transforms, %d "
-                        "placements), %d^3 x 2 probes each",
-                        keys.size(), R.tier().c_str(), sp::leaves().size(), sp::num_unary_transforms,
-                        sp::num_binary_transforms, int(sp::num_placements), nlat));
+    R.note("space", fmt("%zu programs in tier %s (%zu leaves of which %d base, %zu transforms, %d "
+                        "placements, %d tolerances), %d^3 x (2 + extra content boxes) lattice probes "
+                        "each + directed probes for kind f",
+                        keys.size(), R.tier().c_str(), sp::leaves().size(), sp::num_base_leaves,
+                        sp::transforms().size(), int(sp::num_placements_ext), sp::num_tolerances, nlat));
     return R.finish();
 }
